@@ -192,7 +192,81 @@ def sv_line(d):
     return "%d %s" % (len(d), " ".join("%d %s" % (i, q2s(v)) for i, v in d.items())) if d else "0"
 
 
+def gen_bump_session(rng):
+    """more than 20 rows, identity plus a small integer bump (exact cancellations in the L stage), sparse right-hand
+    sides: the sparse ftran / btran stages and the sparse update path, every row and column of the inverse before and
+    after a run of column replacements without refactorization"""
+    n = rng.choice([30, 45, 45, 64, 90, 120]) + rng.rint(-3, 3)     # sparse mode needs fewer than 0.05 n non-zeros in the work vector
+    b = rng.rint(4, 8)
+    pr, pc = rng.shuffle(list(range(n))), rng.shuffle(list(range(n)))
+    cols = [dict() for _ in range(n)]
+    for i in range(n):
+        cols[pc[i]][pr[i]] = F(rng.choice([1, 1, 1, 2, -1]))
+    for i in range(b):
+        for k in range(b):
+            if i != k and rng.chance(0.7):
+                cols[pc[k]][pr[i]] = F(rng.choice([1, 1, 2, 3, -1, -2]))
+    # a few entries outside the bump (short rows / columns through the identity part)
+    if rng.chance(0.5):
+        for _ in range(rng.rint(1, max(1, n // 10))):
+            cols[pc[rng.below(n)]][pr[rng.below(n)]] = F(rng.choice([1, -1, 2]))
+    extra = []
+    hot_rows = [pr[i] for i in range(min(n, b + 4))]
+    for _ in range(rng.rint(8, 20)):
+        k = rng.rint(1, 4)
+        src = hot_rows if rng.chance(0.7) else list(range(n))      # replacement columns that meet the bump rows
+        extra.append({i: F(rng.choice([1, 1, 2, -1, 3])) for i in rng.shuffle(list(src))[:k]})
+    hot_pos = [pc[i] for i in range(min(n, b + 2))]
+    pool = cols + extra
+    sweep = [("b", {i: F(1)}) for i in range(n)] + [("f", {i: F(1)}) for i in rng.shuffle(list(range(n)))[:8]]
+    ops = list(sweep)
+    for _ in range(rng.rint(6, 24)):
+        ops.append(("u", rng.choice(hot_pos) if rng.chance(0.7) else rng.below(n), n + rng.below(len(extra))))
+        if rng.chance(0.3):
+            ops.append(("b", svec(rng, n)))
+    ops += [("b", {i: F(1)}) for i in range(n)] + [("f", svec(rng, n))]
+    par = [-1, -1, -1, -1]
+    lines = ["fnew %d %d %s %s %s" % (n, len(pool), " ".join(sv_line(c) for c in pool), " ".join(str(k) for k in range(n)),
+                                      " ".join(str(p) for p in par))]
+    for op in ops:
+        lines.append("fupd %d %d" % (op[1], op[2]) if op[0] == "u" else ("fftran " if op[0] == "f" else "fbtran ") + sv_line(op[1]))
+    return {"n": n, "kind": "bump", "pool": pool, "ops": ops, "lines": lines, "par": par}
+
+
+def gen_sparse_update_session(rng):
+    """30-60 rows, about three small integers per column, forty column replacements without refactorization (the default
+    eta limit is 100): the sparse-elimination branch of the update with its row / column cross references; rows of the
+    inverse are read after every replacement and all of them at the end"""
+    n = rng.rint(28, 60)
+    cols = []
+    for k in range(n):
+        c = {k: F(rng.choice([1, 2, 3, -1, -2]))}
+        for i in rng.shuffle(list(range(n)))[:rng.rint(1, 3)]:
+            c.setdefault(i, F(rng.choice([1, 2, 3, -1, -2, -3])))
+        cols.append(c)
+    extra = [{i: F(rng.choice([1, 2, 3, -1, -2, -3])) for i in rng.shuffle(list(range(n)))[:3]} for _ in range(40)]
+    pool = cols + extra
+    ops = [("b", {i: F(1)}) for i in rng.shuffle(list(range(n)))[:6]]
+    for k in range(40):
+        pos = rng.below(n)
+        ops.append(("u", pos, n + k))
+        ops += [("b", {i: F(1)}) for i in [pos] + rng.shuffle(list(range(n)))[:4]]
+        if rng.chance(0.3):
+            ops.append(("f", svec(rng, n)))
+    ops += [("b", {i: F(1)}) for i in range(n)]
+    par = [-1, -1, -1, -1]
+    lines = ["fnew %d %d %s %s %s" % (n, len(pool), " ".join(sv_line(c) for c in pool), " ".join(str(k) for k in range(n)),
+                                      " ".join(str(p) for p in par))]
+    for op in ops:
+        lines.append("fupd %d %d" % (op[1], op[2]) if op[0] == "u" else ("fftran " if op[0] == "f" else "fbtran ") + sv_line(op[1]))
+    return {"n": n, "kind": "sparse-updates", "pool": pool, "ops": ops, "lines": lines, "par": par}
+
+
 def gen_session(rng, quick):
+    if rng.chance(0.08):
+        return gen_bump_session(rng)
+    if rng.chance(0.03):
+        return gen_sparse_update_session(rng)
     n = rng.wchoice([(1, 1), (2, 3), (3, 3), (4, 3), (6, 3), (10, 3), (18, 2), (30, 1 if quick else 2), (60, 0 if quick else 1), (130, 0)]) if not (not quick and rng.chance(0.004)) else 130
     n = max(1, n + rng.rint(-1, 1)) if n > 3 else n
     kind, cols = gen_matrix(rng, n)
